@@ -216,7 +216,7 @@ theorem SiteAt.nodup_of_count {f : Forest} {p : Nat} {v : Value} {L : List HTree
 
 theorem count_handles_mid (z : Nat) (l : List HTree) (t : HTree) (r : List HTree) :
     (handlesList (l ++ t :: r)).count z = (handlesList (l ++ r)).count z + (handles t).count z := by
-  simp only [handlesList_append, handlesList_cons, List.count_append]
+  simp only [fs_handlesList_append, handlesList_cons, List.count_append]
   omega
 
 /-- An insertion adds at most the handles of `t`. -/
@@ -231,14 +231,14 @@ theorem count_insert_le (z : Nat) (dest : Dest) (t : HTree) (L : List HTree) :
     | cons k ks ih =>
       rw [replaceTop_cons]
       split
-      · rw [handlesList_append, handlesList_cons, List.count_append, List.count_append]
+      · rw [fs_handlesList_append, handlesList_cons, List.count_append, List.count_append]
         have := hF k
         omega
       · rw [handlesList_cons, handlesList_cons, List.count_append, List.count_append]
         omega
   cases dest with
   | lastChildOf p =>
-    simp only [Dest.insert, insertLast, handlesList_append, handlesList_cons, handlesList_nil, List.count_append,
+    simp only [Dest.insert, insertLast, fs_handlesList_append, handlesList_cons, handlesList_nil, List.count_append,
       List.append_nil]
     omega
   | firstNormalChildOf p =>
@@ -246,7 +246,7 @@ theorem count_insert_le (z : Nat) (dest : Dest) (t : HTree) (L : List HTree) :
     rw [insertFirstNormal_eq]
     have := List.takeWhile_append_dropWhile (p := abn) (l := L)
     conv => rhs; rw [← this]
-    simp only [handlesList_append, handlesList_cons, List.count_append]
+    simp only [fs_handlesList_append, handlesList_cons, List.count_append]
     omega
   | after r =>
     simp only [Dest.insert, insertAfterTop]
@@ -366,7 +366,7 @@ theorem root_is {f : Forest} {c : Nat} {t : HTree} (nd : f.allHandles.Nodup) (hc
   obtain ⟨m1, _⟩ := nodup_mid nd
   have : f.get? k.handle = some k := by
     rw [Forest.get?_eq, hAB]
-    exact findList?_mid (m1 _ (handle_mem_handles k))
+    exact findList?_mid (m1 _ (fs_handle_mem_handles k))
   rw [hkc, hc] at this
   exact (Option.some.inj this).symm
 
@@ -521,7 +521,7 @@ theorem frame_specMove {f : Forest} {keep : Keep} {dest : Dest} {c : Nat} {t : H
   have htc : t.handle = c := (findList?_some f.roots t hgc).1
   have hleaft : t.value.isText = true → t.kids = [] ∧ t.handle ≠ cx.parent := by
     intro ht
-    exact ⟨leaf_of_text inv.valid hgc ht, fun e => h3 (e ▸ handle_mem_handles t)⟩
+    exact ⟨leaf_of_text inv.valid hgc ht, fun e => h3 (e ▸ fs_handle_mem_handles t)⟩
   have hleafq : ∀ k ∈ Lq, k.value.isText = true → k.kids = [] ∧ k.handle ≠ cx.parent := by
     intro k hk hkt
     have hkl := sq.leaf inv.valid k hk hkt
